@@ -36,7 +36,7 @@ const P: &str = "C10";
 
 /// Streams up to this length get every single split point; longer ones get every position next to
 /// a field or frame boundary plus a random sample of the interior.
-const EXHAUSTIVE_LIMIT: usize = if cfg!(miri) { 48 } else { 2048 };
+const EXHAUSTIVE_LIMIT: usize = if cfg!(miri) { 14 } else { 2048 };
 const BYTEWISE_LIMIT: usize = if cfg!(miri) { 64 } else { 3000 };
 
 struct Case<Q: Pair> {
@@ -349,6 +349,21 @@ fn split_positions<Q: Pair>(rng: &mut Rng, case: &Case<Q>) -> (Vec<usize>, bool)
     if len <= EXHAUSTIVE_LIMIT {
         return ((1..len).collect(), true);
     }
+    if cfg!(miri) {
+        // The interpreter is ~1000 times slower: field starts and frame ends, at most 10 of them,
+        // and two positions anywhere.
+        let mut all: Vec<usize> = case.fields.iter().flatten().map(|f| f.off).chain(case.ends.iter().copied()).filter(|p| *p >= 1 && *p < len).collect();
+        all.sort_unstable();
+        all.dedup();
+        rng.shuffle(&mut all);
+        all.truncate(10);
+        for _ in 0..2 {
+            all.push(rng.range(1, len as u64 - 1) as usize);
+        }
+        all.sort_unstable();
+        all.dedup();
+        return (all, false);
+    }
     let mut set = std::collections::BTreeSet::new();
     for fields in &case.fields {
         for f in fields {
@@ -493,7 +508,7 @@ where
     }
 
     // 4. Random multi-splits.
-    let multi = if cfg!(miri) { 2 } else { 8 };
+    let multi = if cfg!(miri) { 1 } else { 8 };
     for _ in 0..multi {
         let cuts = random_cuts(rng, len);
         out.count("multi-split-runs");
@@ -824,6 +839,17 @@ fn main() {
     let rt_cases = s.args.budget(220, 9_000);
     let mut_cases = s.args.budget(1_500, 60_000);
     let mut probes: Vec<Probe> = Vec::new();
+    // Miri with Stacked Borrows (its default) rejects `nom_locate::LocatedSpan::get_utf8_column`
+    // (nom_locate 4.2.0 rebuilds the consumed prefix from a pointer into an empty remainder), which
+    // the incremental Recon parser calls after every chunk: the interpreter stops there, before
+    // reaching anything of swim-rust. With `-Zmiri-tree-borrows` in MIRIFLAGS everything runs;
+    // without it the pairs whose decoder parses Recon are left out (and listed in the notes).
+    let tree_borrows = std::env::var("MIRIFLAGS").map_or(false, |f| f.contains("tree-borrows")) || s.args.extra.contains_key("tree-borrows");
+    if cfg!(miri) && s.args.verbose {
+        eprintln!("MIRIFLAGS as seen by the program: {:?}", std::env::var("MIRIFLAGS"));
+    }
+    let skip_recon_decoders = cfg!(miri) && !tree_borrows;
+    let mut skipped: Vec<String> = Vec::new();
 
     macro_rules! pair {
         ($q:ty) => {{
@@ -832,6 +858,8 @@ fn main() {
                 if *t == name {
                     probe_child::<$q>(probe_value);
                 }
+            } else if skip_recon_decoders && <$q as Pair>::recon_decoder() {
+                skipped.push(name);
             } else {
                 probes.push(Probe { pair: name.clone(), reserves: <$q as Pair>::reserve_guard(&[0xffu8; 64]).is_some() });
                 s.part(
@@ -908,6 +936,13 @@ fn main() {
     if probe_target.is_some() {
         eprintln!("unknown --probe-pair");
         std::process::exit(9);
+    }
+    if !skipped.is_empty() {
+        s.note(format!(
+            "Miri without -Zmiri-tree-borrows: {} pairs whose decoder runs the incremental Recon parser were skipped (nom_locate 4.2.0 violates Stacked Borrows): {}",
+            skipped.len(),
+            skipped.join(", ")
+        ));
     }
 
     // Corrupt lengths in the range where an allocation of that size fails (rather than overflowing
